@@ -52,7 +52,9 @@ def split_pieces(rng, data):
 RESPS = [[1, 1, []], [1, 2, []], [0, 1, [[0, b'ok']]], [1, 5, [[0, b'{"fault":"nf"}']]], [1, 1, [[0, b'z' * 3000]]],
          [1, 3, [[0, b'bad']]], [1, 1, [[2], [0, b'dep']]],
          # a body on a status that starts without Content-Length (204, 100): the length is announced and the body sent
-         [1, 2, [[0, b'gone']]], [0, 0, [[0, b'interim body']]], [1, 2, [[3], [0, b'x' * 40]]]]
+         [1, 2, [[0, b'gone']]], [0, 0, [[0, b'interim body']]], [1, 2, [[3], [0, b'x' * 40]]],
+         # an explicitly empty body; a body with multi-byte characters (Content-Length counts bytes); one beyond 1 KiB
+         [1, 1, [[0, b'']]], [1, 1, [[0, '{ "name": "Zo\u00eb M\u00fcller \u20ac" }'.encode()]]], [0, 1, [[0, b'k' * 1500]]]]
 
 
 class Hist:
@@ -636,6 +638,34 @@ class C07(ServerProp):
         # behind the partially written one
         out += large_cases(self, rng, tier, 4, 40)
         out += static_cases(self, rng, tier)
+        # a client pipelines many requests and does not read; the answers exceed its socket buffer, the application flushes
+        # (the write would block: the connection is given up, the unsent rest dropped), answers one more request late, then the
+        # client reads everything: what it gets is a prefix of the supplied responses in order -- never a cut response followed
+        # by a later one.  Outside the executable kernel model (K3): decided on the implementation alone.
+        for _ in range(3 if tier == 'quick' else 25):
+            h = Hist(rng)
+            c = h.connect()
+            h.ops.append([11, 4])
+            nreq = rng.choice([10, 12, 14])
+            h.request(c, pipelined=nreq, poll_between=False)
+            h.ops.append([11, 40])
+            resps = []
+            for k in range(nreq - 2):
+                r = [1, 1, [[0, bytes([65 + k]) * 65536]]]
+                resps.append(r)
+                h.ops.append([7, 0, r])
+            h.ops.append([8])
+            for k in range(rng.randint(1, 2)):
+                r = [1, 1, [[0, b'late-%d' % k]]]
+                resps.append(r)
+                h.ops.append([7, 0, r])
+                h.ops.append([11, 4])
+            for _ in range(20):
+                h.ops.append([5, c])
+                h.ops.append([11, 4])
+            h.ops.append([5, c])
+            out.append(self.mk(h, 0, {'kind': 'cut-then-late-answer', 'oracle_only': True, 'client': c,
+                                      'supplied': resps}))
         # three or more pipelined requests, some answered, a single poll (which sends one answer), the rest answered,
         # then everything is delivered: the client must see the answers in the order they were supplied
         for _ in range(150 if tier == 'quick' else 5000):
@@ -665,6 +695,16 @@ class C07(ServerProp):
                     v.append(self.viol(t, 'no call fails', a['errs'][0][1], 'call-failed'))
                 else:
                     large_oracle(self, t, m, a, v)
+                continue
+            if m.get('kind') == 'cut-then-late-answer':
+                want = b''.join(pyhttp.serialize(pyhttp.build(r)) for r in m['supplied'])
+                got = a['rx'].get(m['client'], b'')
+                if a['errs']:
+                    v.append(self.viol(t, 'no call fails', a['errs'][0][1], 'call-failed'))
+                elif want[:len(got)] != got:
+                    k = next(i for i in range(len(got)) if i >= len(want) or got[i] != want[i])
+                    v.append(self.viol(t, 'what the client receives is a prefix of the supplied responses in the order supplied',
+                                       'after %d matching bytes: %r' % (k, got[k:k + 60]), 'cut-then-late'))
                 continue
             check_client_bytes(self, t, a, v)
         return v
